@@ -113,7 +113,7 @@ public:
          assert( p >= t );
  #endif
         if (p % 2 == 0)
-            return false;
+            return p == t;
         T zero = T(0);
         T sqrtt = T(sqrt(p)) + 1;
 #ifdef PARMCB_INVARIANTS_CHECK
